@@ -7,7 +7,7 @@
 (*   Reg(c)        _get_queue_for_system entered         Send(sys)  the request was written to the line         *)
 (*   Del(c)        _remove_queue entered (after the reply was taken from the queue, or after T3)                *)
 (*   Ret(c, got)   send_and_waitfor_response returned (got = request the returned reply answers, 0 = none)      *)
-(*   InReply(sys, c) / InOther(id) / Reconnect    what the peer (driver) did                                  *)
+(*   InReply(sys, c) / InOther(id, sys) / Reconnect    what the peer (driver) did (InOther.sys # 0: colliding)  *)
 (*   Take(c | id)  the dispatcher thread took a message; QPut: put into a response queue;                       *)
 (*   DBegin(id) / DEnd   hand-over to the application begins / ends                                           *)
 (* The counter's linearization point lies inside its lock and has no observable event: Sys binds the value    *)
@@ -35,11 +35,13 @@ TInReply == /\ Is("InReply")
             /\ IF \E w \in wire : w.sys = Cur.sys /\ w.c = Cur.c THEN PeerReply([sys |-> Cur.sys, c |-> Cur.c])
                ELSE PeerLateReply(Cur.sys, Cur.c)
             /\ Adv
-TInOther == Is("InOther") /\ nextU = Cur.id /\ PeerUnsol /\ Adv
+TInOther == /\ Is("InOther") /\ nextU = Cur.id
+            /\ (IF Cur.sys = 0 THEN PeerUnsol ELSE \E c \in Callers : sys[c] = Cur.sys /\ PeerCollide(c))      \* sys # 0: the primary carries the system bytes of an open request
+            /\ Adv
 TReconnect == Is("Reconnect") /\ Reconnect /\ Adv
 HeadIs(m) == IF m.k = "reply" THEN Cur.c = m.for /\ Cur.id = 0 ELSE Cur.id = m.id
 TTake == Is("Take") /\ dispq # <<>> /\ HeadIs(Head(dispq)) /\ DtTake(1) /\ Adv
-Routed == dmsg[1].k = "reply" /\ dmsg[1].sys \in reg
+Routed == (dmsg[1].k = "reply" \/ ~SecondaryOnly) /\ dmsg[1].sys \in reg
 TQPut == Is("QPut") /\ dpc[1] = "took" /\ Routed /\ DtRoute(1) /\ Adv
 TDBegin == /\ Is("DBegin") /\ dpc[1] = "took" /\ ~Routed
            /\ (IF dmsg[1].k = "unsol" THEN Cur.id = dmsg[1].id ELSE Cur.c = dmsg[1].for)
